@@ -38,6 +38,8 @@ CONSTANTS Pilots,            \* set of pilot names (strings)
           NAdv,              \* number of state bulks published through AgentComponent.advance
           DevBulkHeadDecides,\* advance(fwd=True) drops the flag for the whole bulk when
                              \* its first task was created inside the pilot
+          DevRepublishOnTimeout, \* the requester publishes its RPC request again while
+                             \* the result is not there (it must be published once)
           DevKeepFwd,        \* L2P does not clear the fwd flag
           DevL2PAnyOrigin,   \* L2P forwards messages stamped by others
           DevL2PIgnoreFwd,   \* L2P forwards unflagged messages
@@ -120,6 +122,18 @@ PublishReq(a, b) ==
   /\ next' = next + 1
   /\ UNCHANGED <<qpx, got>>
 
+(* ---- deviation: a timed wait for the result ran out - the request (same uid, ---- *)
+(* ---- same message) goes out again; re counts the repetitions of a request  ---- *)
+RepublishReq(i) ==
+  /\ DevRepublishOnTimeout
+  /\ rpc[i].kind = "req" /\ rpc[i].re < 1
+  /\ ~ \E j \in Ids : rpc[j].kind = "res" /\ rpc[j].re = i /\ got[pub[i].side][j] > 0
+  /\ LET a == pub[i].side
+         m == [id |-> i, origin |-> Absent, fwd |-> "true", hops |-> 0] IN
+     qloc' = [qloc EXCEPT ![a]["AA"] = Append(@, m), ![a]["AL"] = Append(@, m)]
+  /\ rpc' = [rpc EXCEPT ![i].re = @ + 1]
+  /\ UNCHANGED <<next, pub, qpx, got>>
+
 (* ---- delivery to the ordinary subscriber of s, from app(s) or P2L(s) ---- *)
 DeliverApp(s, src) ==
   LET k == IF src = "app" THEN "AA" ELSE "PA" IN
@@ -169,6 +183,7 @@ Deliver ==
 Next ==
   \/ \E s \in Sides, o \in Origins, f \in FwdChoice : Publish(s, o, f)
   \/ \E a \in Sides, b \in Sides : PublishReq(a, b)
+  \/ \E i \in Ids : RepublishReq(i)
   \/ \E s \in Pilots, b \in Bulks, fp \in {"true", "false"} : Advance(s, b, fp)
   \/ Deliver
 
